@@ -16,6 +16,8 @@ import (
 	"testing"
 	"time"
 
+	libhead "github.com/celestiaorg/go-header"
+
 	"github.com/celestiaorg/celestia-node/header"
 	"github.com/celestiaorg/celestia-node/internal/verifhdr"
 	"github.com/celestiaorg/celestia-node/internal/verifsim"
@@ -188,7 +190,11 @@ type vsDAS struct {
 	sampler *vsSampler
 	opts    []Option
 	limit   int
-	rng     uint64
+	// maxLimit is the largest limit any instance of this run was configured with: workers resumed from
+	// a checkpoint written under a larger limit legitimately exceed a smaller one
+	maxLimit int
+	hdrMiss  int
+	rng      uint64
 
 	d        *DASer
 	handle   *verifsim.DSHandle
@@ -211,6 +217,32 @@ type vsDAS struct {
 	nRetry map[uint64]int // of those, calls seen to belong to a retry job
 }
 
+// vsHdrGetter is the header getter handed to the DASer: the chain, except that the next hdrMiss
+// look-ups by height answer "not found" (the header store lags or hiccups; the header exists).
+type vsHdrGetter struct {
+	*verifhdr.Chain
+	w *vsDAS
+}
+
+func (g vsHdrGetter) GetByHeight(ctx context.Context, h uint64) (*header.ExtendedHeader, error) {
+	g.w.sampler.mu.Lock()
+	miss := g.w.hdrMiss > 0
+	if miss {
+		g.w.hdrMiss--
+	}
+	g.w.sampler.mu.Unlock()
+	if miss {
+		// the attempt never reaches the sampler seam, so the seam's per-height failure count does not see
+		// it: the height's attempt bookkeeping is not judged in this lifetime (same as multiply tracked ones)
+		g.w.sampler.mu.Lock()
+		g.w.multi[h] = true
+		g.w.sampler.mu.Unlock()
+		g.w.s.Fault("header-lookup-not-found")
+		return nil, fmt.Errorf("verif: header %d: %w", h, libhead.ErrNotFound)
+	}
+	return g.Chain.GetByHeight(ctx, h)
+}
+
 func (w *vsDAS) startInstance() {
 	w.sampler.mu.Lock()
 	w.sampler.gen++
@@ -219,7 +251,14 @@ func (w *vsDAS) startInstance() {
 	w.sampler.mu.Unlock()
 	w.handle = w.ds.Handle(fmt.Sprintf("das%d", gen))
 	w.handle.YieldOps = true
-	d, err := NewDASer(vsSamplerFor{w.sampler, gen}, w.chain, w.chain, w.handle, w.opts...)
+	if w.lifeNo > 0 && w.s.Chance(1, 6, "limit_changes_at_restart") {
+		// the operator restarts the node with another concurrency limit
+		w.s.Fault("concurrency-limit-changed")
+		w.limit = w.s.Range(1, 4, "new_concurrency_limit")
+		w.maxLimit = max(w.maxLimit, w.limit)
+		w.opts = append(append([]Option{}, w.opts...), WithConcurrencyLimit(w.limit))
+	}
+	d, err := NewDASer(vsSamplerFor{w.sampler, gen}, w.chain, vsHdrGetter{w.chain, w}, w.handle, w.opts...)
 	if err != nil {
 		panic(err)
 	}
@@ -259,6 +298,7 @@ func vsDASWorld(s *verifsim.Sim) {
 	w.sampler = &vsSampler{sampled: map[uint64]bool{}, lastFail: map[uint64]int64{}, alone: map[uint64]bool{}, fails: map[uint64]int{}, s: s}
 	w.rng = uint64(s.Range(1, 5, "sampling_range"))
 	w.limit = s.Range(1, 4, "concurrency_limit")
+	w.maxLimit = w.limit
 	bg := []time.Duration{0, 30 * time.Second, 10 * time.Minute}[s.Choose(3, "bg_store")]
 	sampleTimeout := []time.Duration{10 * time.Second, 60 * time.Second}[s.Choose(2, "sample_timeout")]
 	w.opts = []Option{WithSamplingRange(w.rng), WithConcurrencyLimit(w.limit), WithBackgroundStoreInterval(bg), WithSampleTimeout(sampleTimeout)}
@@ -350,6 +390,13 @@ func vsDASWorld(s *verifsim.Sim) {
 					})
 				}})
 				alts = append(alts, verifsim.Alt{Label: "crash", Weight: 2, Do: func() { s.Fault("crash"); w.crash() }})
+				if !faultFree {
+					alts = append(alts, verifsim.Alt{Label: "header look-ups fail", Weight: 1, Do: func() {
+						w.sampler.mu.Lock()
+						w.hdrMiss = 1 + s.Choose(3, "failing_lookups")
+						w.sampler.mu.Unlock()
+					}})
+				}
 				if th := w.chain.TailHeight(); th+3 < w.chain.HeadHeight() && s.Cfg["tail_moved"] == nil {
 					alts = append(alts, verifsim.Alt{Label: "advance tail", Weight: 1, Do: func() {
 						s.Fault("tail-advance")
@@ -457,7 +504,7 @@ func (w *vsDAS) observe() {
 			nonRecent++
 		}
 	}
-	if nonRecent > w.limit || len(st.Workers) > 2*w.limit || len(live) > 2*w.limit {
+	if nonRecent > w.maxLimit || len(st.Workers) > 2*w.maxLimit || len(live) > 2*w.maxLimit {
 		s.ViolateP("C13", "c13-concurrency-exceeded", "workers", "limit=%d: %d catch-up/retry workers, %d workers in total, %d concurrent sampler calls; %s", w.limit, nonRecent, len(st.Workers), len(live), desc())
 	}
 	// every listed worker must be sampling something (its job has not finished)
@@ -499,6 +546,9 @@ func (w *vsDAS) observe() {
 		}
 		if covering == 1 && retry == 1 {
 			w.nRetry[c.height]++
+		}
+		if os.Getenv("VERIF_DEBUG") != "" {
+			s.Note("call %d h=%d covering=%d retry=%d workers=%+v failed=%v", c.id, c.height, covering, retry, st.Workers, st.Failed)
 		}
 	}
 	for h, n := range w.nCalls {
@@ -601,6 +651,7 @@ func (w *vsDAS) continuation() {
 	// from here on sampling always succeeds at once
 	w.sampler.mu.Lock()
 	w.sampler.auto = true
+	w.hdrMiss = 0
 	w.sampler.mu.Unlock()
 	for _, c := range w.sampler.livePending() {
 		w.sampler.release(c, vsOK)
